@@ -14,9 +14,10 @@ Which control forms mako admits (lexer ternary table + `PythonFragment` keyword 
 `if / elif* / else?`, `for / else?`, `while` (no `else`), `try / except+` (no `else`, **no `finally`**: the lexer
 accepts `% finally:` as a ternary of `try` but `PythonFragment` rejects the keyword), `with`.
 
-Three statements of the design are false of the code as they stand and appear as `_partial` + `_counterexample`
-(`printer_adequate` was a fourth until /repo 1cb10d7 put `except` into `_re_compound`): `auto_pass_sufficient` (a suite holding only a
-`<%def>` or `<%! %>` gets no `pass`), `stop_rendering_keeps_output` (`return` inside a buffered or filtered def
+Two statements of the design are false of the code as they stand and appear as `_partial` + `_counterexample`
+(`printer_adequate` was a third until /repo 1cb10d7 put `except` into `_re_compound`, `auto_pass_sufficient` a
+fourth until 6d51f05 made the visitor write `pass` whenever the printer's `suite_is_empty` flag is still set at a
+ternary / end line): `stop_rendering_keeps_output` (`return` inside a buffered or filtered def
 loses the content), and `fragment_headerOk` (`PythonFragment` strips / accepts more whitespace than `_re_indent`).
 -/
 namespace MakoModel.C03
@@ -38,7 +39,8 @@ abbrev Str := List Char
     follows an `else`, `finally`, `def` or `class` header (`continuation_after_final_clause`), which Python's
     grammar excludes as well: `else` and `finally` are final clauses. -/
 theorem printer_adequate (P : Prog) (hg : good none P = true) (hne : suitesNonEmpty P = true) :
-    printed P = ⟨0, [], layout 0 P, false⟩ ∧ parseIndent (printed P).out = some (unraw P) := by
+    printed P = ⟨0, [], layout 0 P, false, flagAfter false (emit P)⟩ ∧
+      parseIndent (printed P).out = some (unraw P) := by
   have h := printed_layout P hg
   exact ⟨h, by rw [h]; exact parseIndent_layout P hne⟩
 
@@ -132,13 +134,17 @@ theorem auto_pass_comment_only (kw : Str) (body : CT) (terns : Terns) (node : St
 
 example : allComments (.leaf .comment (.leaf .comment .nil)) = true := rfl
 
-/-- **Every generated suite is non-empty** – for every template (any nesting) in which every node that is
-    neither a comment nor a control line writes a statement in place.
-
-    PARTIAL – guard `noSilent t`.  OPEN (false, `auto_pass_sufficient_counterexample`): for every template. -/
-theorem auto_pass_sufficient_partial (el : Bool) (t : CT) (hn : noSilent t = true) (hf : forOk el t = true) :
-    suitesNonEmpty (structOf el t) = true :=
-  suites_structOf el t hn hf
+/-- **Every generated suite is non-empty** (full strength since /repo 6d51f05; formerly findings F-C03-2a/2b).
+    Now a property of visitor and printer together: at every ternary / end line the visitor writes `pass` when the
+    printer's `suite_is_empty` flag is still set.  Stated over the emission sequence: for every template – any
+    nesting, suites holding only `<%def>`s, `<%! %>` blocks, comments, or nothing – the printer calls `emitCT` are
+    the emission of a structured program (`structOf`) in which **no suite is empty**; and the flag the visitor reads
+    is, after any error-free run of the printer, the function `flagAfter` of the calls made so far that `emitCT`
+    uses (`true` exactly when the last line written opened a level). -/
+theorem auto_pass_sufficient (el : Bool) (t : CT) (hok : ctOk el t = true) (hf : forOk el t = true) :
+    emitCT el t = emit (structOf el t) ∧ suitesNonEmpty (structOf el t) = true ∧
+    ∀ (σ : PS) (evs : List Ev), (run σ evs).err = false → (run σ evs).empty = flagAfter σ.empty evs :=
+  ⟨(emit_structOf el t hok hf).symm, suites_structOf el t hf, fun σ evs h => run_empty evs σ h⟩
 
 /-- `% if x:` / `## c` / `% for a in b:` / `% else:` / text / `% endfor` / `% elif y:` / `% endif` -/
 def sampleCT : CT :=
@@ -150,15 +156,17 @@ def sampleCT : CT :=
     (.cons ⟨"elif".toList, "elif y:".toList, false, none⟩ .nil .nil)
     (.leaf (.block "z = 1".toList false (some "'z'".toList)) .nil)
 
-example : noSilent sampleCT = true ∧ forOk true sampleCT = true ∧ ctOk true true sampleCT = true := by decide +kernel
+example : forOk true sampleCT = true ∧ ctOk true sampleCT = true := by decide +kernel
 
-/-- `% if x:` / `<%def name="d()">…</%def>` / `% endif`: the suite is empty (IndentationError in the module) -/
+/-- `% if x:` / `<%def name="d()">…</%def>` / `% elif y:` / `% endif`: both suites get their `pass` from the flag
+    (the witness of the former F-C03-2a) -/
 def defOnlySuite : CT :=
-  .ctl ⟨"if".toList, "if x:".toList, false, none⟩ (.leaf (.silent false [.other]) .nil) .nil .nil
+  .ctl ⟨"if".toList, "if x:".toList, false, none⟩ (.leaf (.silent false [.other]) .nil)
+    (.cons ⟨"elif".toList, "elif y:".toList, false, none⟩ (.leaf (.silent false []) .nil) .nil) .nil
 
-theorem auto_pass_sufficient_counterexample :
-    suitesNonEmpty (structOf true defOnlySuite) = false ∧ emitCT true defOnlySuite = [.wl (some "if x:".toList), .wl none] := by
-  decide +kernel
+example : ctOk true defOnlySuite = true ∧ forOk true defOnlySuite = true ∧
+    emitCT true defOnlySuite = [.wl (some "if x:".toList), .wl (some "pass".toList), .wl (some "elif y:".toList),
+      .wl (some "pass".toList), .wl none] := by decide +kernel
 
 /-- **An extra `pass` never changes the outcome** (the rule also writes `pass` in front of a nested control
     line): in the target semantics `pass` is `skip`, and a suite with a `skip` in front or at the end runs as the
@@ -186,15 +194,15 @@ example : lexCtl " \t %  if x:\nfoo".toList = some (false, "if x:".toList) ∧
     are the flat emission of `structOf t`, the printer writes it with that structure's indentation and ends in the
     state it started in, and the written lines read back as `structOf t`.
 
-    PARTIAL – guard `noSilent`: no suite consists of nodes that write nothing (F-C03-2).  `ctOk true` holds the
-    shape conditions: lines are `LineOk` / `HeaderOk`, and no ternary line follows an `% else:` – which is Python's
-    grammar (mako's lexer would let `% if / % else / % elif` through; that is no Python statement). -/
-theorem codegen_indentation_partial (el : Bool) (t : CT) (hok : ctOk true el t = true) (hn : noSilent t = true)
-    (hf : forOk el t = true) :
-    run PS.init (emitCT el t) = ⟨0, [], layout 0 (structOf el t), false⟩ ∧
+    Full strength (since /repo 1cb10d7 and 6d51f05).  `ctOk` holds the shape conditions: lines are `LineOk` /
+    `HeaderOk`, and no ternary line follows an `% else:` – which is Python's grammar (mako's lexer would let
+    `% if / % else / % elif` through; that is no Python statement); `forOk`: `_FOR_LOOP` matched every mangled
+    `% for` (otherwise the real generator raises). -/
+theorem codegen_indentation (el : Bool) (t : CT) (hok : ctOk el t = true) (hf : forOk el t = true) :
+    run PS.init (emitCT el t) = ⟨0, [], layout 0 (structOf el t), false, flagAfter false (emitCT el t)⟩ ∧
       parseIndent (run PS.init (emitCT el t)).out = some (unraw (structOf el t)) := by
-  have he := emit_structOf true el t hok
-  have h := printer_adequate (structOf el t) (good_structOf el t hok) (suites_structOf el t hn hf)
+  have he := emit_structOf el t hok hf
+  have h := printer_adequate (structOf el t) (good_structOf el t hok) (suites_structOf el t hf)
   simp only [printed, he] at h
   exact h
 
